@@ -26,6 +26,10 @@ func (t *ReadBuffers) Receive(bs []byte) ([]byte, bool, error) {
 	buf, ok := t.ReadBuffer[seqNum]
 	if !ok {
 		maxSegIdx := binary.BigEndian.Uint16(bs[4:6])
+		if segIdx > maxSegIdx {
+			// index beyond the announced count: discard without creating a buffer
+			return nil, false, nil
+		}
 		t.ReadBuffer[seqNum] = &ReadBuffer{
 			SegCount: 0,
 			MsgSize:  0,
